@@ -145,7 +145,7 @@ def epilogue(ctx, P):
             if isinstance(x, ast.Call) and isinstance(x.func, ast.Attribute) and x.func.attr in ("append", "extend", "insert", "pop", "remove") and not isinstance(x.func.value, ast.Name):
                 tt = unparse(x.func.value)
                 ob.ok("%s:%s.%s" % (q, tt, x.func.attr), "%s: %s" % (q, unparse(x)[:70]))
-                ctx.violation(ob, "R10.epilogue", q, "%s.%s" % (tt, x.func.attr), "accumulation",
+                ctx.violation(ob, "R10.epilogue", q, "%s.%s" % (tt, "append" if x.func.attr in ("append", "insert", "extend") else x.func.attr), "accumulation",
                               "`%s` grows at every stop (and the event loop appends to it too): utilisation then counts the same server several times" % tt, loc(x))
     # report-only fields must not be read by the event loop
     for field in ("server_utilisation",):
